@@ -13,7 +13,7 @@ import time
 
 HERE = os.path.dirname(os.path.abspath(__file__))
 VERIF = os.path.dirname(HERE)
-LEAN = os.path.join(VERIF, "lean")
+LEAN = os.environ.get("VERIF_LEAN") or os.path.join(VERIF, "lean")
 OUT = os.environ.get("VERIF_OUT", VERIF)  # evidence/replays root (mutant self-tests write elsewhere)
 sys.path.insert(0, HERE)
 
@@ -250,7 +250,7 @@ def main():
 
     # 3. correspondence + oracle
     ctx = Ctx(prop, tier, seed, "normal", deadline)
-    if os.path.exists(os.path.join(VERIF, "lean", ".lake", "build", "bin", "drv")):
+    if os.path.exists(os.path.join(LEAN, ".lake", "build", "bin", "drv")):
         mod.run(ctx)
     else:
         broken.append("driver binary missing; correspondence not run")
